@@ -662,6 +662,12 @@ func (s *Session) routingKeyInfo(ctx context.Context, stmt string) (*routingKeyI
 		// proto v4 dont need to calculate primary key columns
 		types := make([]TypeInfo, len(info.request.pkeyColumns))
 		for i, col := range info.request.pkeyColumns {
+			if col < 0 || col >= len(info.request.columns) {
+				// don't cache this error
+				s.routingKeyInfoCache.Remove(stmt)
+				inflight.err = fmt.Errorf("gocql: partition key index %d is out of range for the %d bind markers of the prepared statement", col, len(info.request.columns))
+				return nil, inflight.err
+			}
 			types[i] = info.request.columns[col].TypeInfo
 		}
 
